@@ -294,6 +294,10 @@ pub struct FsFaultSpec {
     pub enospc_after_bytes: Option<u64>,
     pub rename_errno: Option<i32>,
     pub fsync_errno: Option<i32>,
+    #[serde(default)]
+    pub open_read_errno: Option<i32>,
+    #[serde(default)]
+    pub read_errno: Option<i32>,
 }
 
 impl FsFaultSpec {
@@ -307,6 +311,8 @@ impl FsFaultSpec {
             enospc_after_bytes: self.enospc_after_bytes,
             rename_errno: self.rename_errno,
             fsync_errno: self.fsync_errno,
+            open_read_errno: self.open_read_errno,
+            read_errno: self.read_errno,
         }
     }
 }
@@ -342,6 +348,8 @@ pub struct FxPlan {
     pub lookups: Vec<Date>,
     /// Some => go through run_acb_app_to_delta_models on a CSV of these rows instead of direct calls.
     pub app_rows: Option<Vec<AppRow>>,
+    /// The rows are laid out in this many CSV files (>= 1); all files share one loader.
+    pub app_files: usize,
     pub net_faults: Vec<Option<String>>,
     pub fs_faults: FsFaultSpec,
     pub knobs: Knobs,
@@ -388,8 +396,13 @@ pub struct ProcMeta {
 }
 
 pub fn app_csv(rows: &[AppRow]) -> String {
+    app_csv_from(rows, 0)
+}
+
+pub fn app_csv_from(rows: &[AppRow], first_index: usize) -> String {
     let mut s = String::from("security,trade date,settlement date,action,shares,amount/share,commission,currency,exchange rate,commission currency,commission exchange rate,memo\n");
     for (i, r) in rows.iter().enumerate() {
+        let i = i + first_index;
         let trade = pd(&r.trade);
         s.push_str(&format!(
             "FOO,{},{},{},{},{},{},{},{},{},{},{}\n",
@@ -415,7 +428,7 @@ pub fn run_fx_process(plan: FxPlan) -> FxObs {
     let mut env = ProcEnv::new(plan.hash_seed, plan.today);
     env.knobs = plan.knobs.clone();
     env.fs_faults = plan.fs_faults.to_faults();
-    let FxPlan { data, today, published_today, force, cache, mem_in, lookups, app_rows, net_faults, .. } = plan;
+    let FxPlan { data, today, published_today, force, cache, mem_in, lookups, app_rows, app_files, net_faults, .. } = plan;
     let out: ProcOut<Inner> = run_process(&env, move || {
         use acb::fx::io::{CsvRatesCache, InMemoryRatesCache, RateLoader, RatesCache};
         use acb::util::rw::WriteHandle;
@@ -456,8 +469,13 @@ pub fn run_fx_process(plan: FxPlan) -> FxObs {
                 }
             }
             Some(rows) => {
-                let csv = app_csv(&rows);
-                let readers = vec![acb::util::rw::DescribedReader::from_string("sim.csv".to_string(), csv)];
+                let nf = app_files.max(1).min(rows.len().max(1));
+                let per = rows.len().div_ceil(nf).max(1);
+                let readers: Vec<acb::util::rw::DescribedReader> = rows
+                    .chunks(per)
+                    .enumerate()
+                    .map(|(fi, chunk)| acb::util::rw::DescribedReader::from_string(format!("sim{}.csv", fi), app_csv_from(chunk, fi * per)))
+                    .collect();
                 let res = block_on(acb::app::run_acb_app_to_delta_models(
                     readers,
                     std::collections::HashMap::new(),
@@ -545,6 +563,7 @@ impl Reference {
             mem_in: MemState::new(),
             lookups: vec![d],
             app_rows: None,
+            app_files: 1,
             net_faults: vec![],
             fs_faults: FsFaultSpec::default(),
             knobs: Knobs::default(),
